@@ -287,6 +287,46 @@ def record_extra(rng, g, k, D, N, C, x, y, m) -> List[List[dict]]:
         except Exception as ex:
             evs.append(dict(ev="ax", ax="accepted", loss=name, D=D, N=N, C=C, exc=True, what="module with norm", err=f"{type(ex).__name__}: {ex}"[:120]))
         trace(name, evs)
+    # the windowed and information-theoretic loss MODULES are their functional forms with the constructor's options (every alias of an option)
+    mods = [("LCC[module]", lambda: LI.LCC(kernel_size=3)(x, y), lambda: L.lcc_loss(x, y, kernel_size=3)),
+            ("LCC[module,mask]", lambda: LI.LCC(kernel_size=3)(x, y, mask=ms), lambda: L.lcc_loss(x, y, mask=ms, kernel_size=3)),
+            ("LCC[module,default]", lambda: LI.LCC()(x, y), lambda: L.lcc_loss(x, y)) if min(shape[2:]) >= 7 else ("LCC[module,k5]", lambda: LI.LCC(5)(x, y), lambda: L.lcc_loss(x, y, kernel_size=5)),
+            ("LNCC[alias]", lambda: LI.LNCC(kernel_size=(3,) * D)(x, y), lambda: L.lcc_loss(x, y, kernel_size=3)),
+            ("WLCC[module]", lambda: LI.WLCC(kernel_size=3)(x, y, source_mask=ms, target_mask=mt), lambda: L.wlcc_loss(x, y, source_mask=ms, target_mask=mt, kernel_size=3)),
+            ("WLCC[module,mask]", lambda: LI.WLCC(kernel_size=5)(x, y, mask=ms), lambda: L.wlcc_loss(x, y, mask=ms, kernel_size=5)),
+            ("NCC[module]", lambda: LI.NCC()(x, y), lambda: L.ncc_loss(x, y))]
+    if C == 1:
+        hk = dict(vmin=-5.0, vmax=20.0)
+        mods += [("MI[module]", lambda: LI.MI(num_bins=16, **hk)(x, y), lambda: L.mi_loss(x, y, num_bins=16, **hk)),
+                 ("MI[module,bins]", lambda: LI.MI(bins=12, **hk)(x, y), lambda: L.mi_loss(x, y, num_bins=12, **hk)),
+                 ("MI[module,mask]", lambda: LI.MI(num_bins=16, **hk)(x, y, mask=ms), lambda: L.mi_loss(x, y, mask=ms, num_bins=16, **hk)),
+                 ("MI[module,normalized]", lambda: LI.MI(num_bins=16, normalized=True, **hk)(x, y), lambda: L.nmi_loss(x, y, num_bins=16, **hk)),
+                 ("NMI[module]", lambda: LI.NMI(num_bins=16, **hk)(x, y), lambda: L.nmi_loss(x, y, num_bins=16, **hk)),
+                 ("NMI[module,bins]", lambda: LI.NMI(bins=12, **hk)(x, y), lambda: L.nmi_loss(x, y, num_bins=12, **hk)),
+                 ("NMI[module,mask]", lambda: LI.NMI(num_bins=16, **hk)(x, y, mask=ms), lambda: L.nmi_loss(x, y, mask=ms, num_bins=16, **hk))]
+
+        def sampled(mk_mod, fn, **skw):
+            torch.manual_seed(99 + k)
+            a_ = float(mk_mod()(x, y))
+            torch.manual_seed(99 + k)
+            return a_, float(fn(x, y, num_bins=16, **hk, **skw))
+
+        for nm, mk_mod, fn, skw in (("MI[module,sample=ratio]", lambda: LI.MI(num_bins=16, sample=0.5, **hk), L.mi_loss, dict(sample_ratio=0.5)),
+                                    ("MI[module,sample=count]", lambda: LI.MI(num_bins=16, sample=32, **hk), L.mi_loss, dict(num_samples=32)),
+                                    ("NMI[module,num_samples]", lambda: LI.NMI(num_bins=16, num_samples=32, **hk), L.nmi_loss, dict(num_samples=32)),
+                                    ("NMI[module,sample_ratio]", lambda: LI.NMI(num_bins=16, sample_ratio=0.25, **hk), L.nmi_loss, dict(sample_ratio=0.25))):
+            mods.append((nm, (lambda mk_mod=mk_mod, fn=fn, skw=skw: sampled(mk_mod, fn, **skw)), None))
+    for name, fm, ff in mods:
+        evs = []
+        try:
+            if ff is None:
+                v1, v2 = fm()
+            else:
+                v1, v2 = fm(), ff()
+            evs.append(dict(ev="ax", ax="equals", loss=name, D=D, N=N, C=C, v1=cap(v1), v2=cap(v2), what="module = functional form with the constructor's options"))
+        except Exception as ex:
+            evs.append(dict(ev="ax", ax="accepted", loss=name, D=D, N=N, C=C, exc=True, what="loss module", err=f"{type(ex).__name__}: {ex}"[:120]))
+        trace(name, evs)
     # patch-wise evaluation (2-D patches inside a volume): the mask is sampled with the patches; whatever its dtype, samples where it is
     # zero do not matter, and with patches placed on the voxel lattice the loss is the plain masked loss
     if D == 3 and C == 1:  # (the module asks for a mask of the target's shape AND a single channel)
